@@ -413,5 +413,8 @@ func effectiveFlavour() string {
 	if os.Getenv("VERIF_STRACE_FILE") != "" {
 		return "S"
 	}
+	if os.Getenv("VERIF_AUTO_YIELD") != "" {
+		return "A"
+	}
 	return flavourName
 }
